@@ -106,6 +106,8 @@ def nice_value(rng):
         return rng.choice(NICE)
     if r < 0.6:
         return rng.randint(-128, 128) / 64.0       # dyadic: exact sums and comparisons
+    if r < 0.66:
+        return rng.choice([-1, 1]) * rng.choice([2.0 ** -10, 2.0 ** -14, 2.0 ** -20, 1e-4, 1e-6])    # next to the kinks of abs/sign
     return round(rng.uniform(-2.5, 2.5), 4)
 
 
@@ -489,6 +491,8 @@ def exact_safe(n, ref, depth=0):
     leaves and sums/differences/negations of leaves whose values are small dyadic rationals."""
     if not isinstance(n, N):
         return _dyadic(n)
+    if n.k in ('var', 'param', 'flt', 'num') and depth == 0:
+        return True         # a bare leaf is its own exact value, however small
     if n.k == 'var':
         return _dyadic(ref.x[n.a[0]])
     if n.k == 'param':
